@@ -158,11 +158,11 @@ func getShardBetweenExprRouteResult(rule router.Rule, n *ast.BetweenExpr) ([]int
 
 	if n.Not {
 		if start > last {
-			start, last = last, start
-			start = adjustShardIndex(rangeShard, rightValue, start)
-		} else {
-			start = adjustShardIndex(rangeShard, leftValue, start)
+			// the lower bound lies above the upper bound: BETWEEN matches no row,
+			// so NOT BETWEEN matches every row and no table may be pruned
+			return rule.GetSubTableIndexes(), nil
 		}
+		start = adjustShardIndex(rangeShard, leftValue, start)
 
 		l1 := makeList(rule.GetFirstTableIndex(), start+1)
 		l2 := makeList(last, rule.GetLastTableIndex()+1)
